@@ -32,6 +32,9 @@ func init() {
 					return okStr(p.String())
 				}},
 			{Name: "c20.v4.parse", Impl: func(a []string) string {
+				if c13Used(a) { // what an earlier parse of the same text handed out is scribbled on first
+					scribble(ip.NewIPv4FromString(string(unhx(a[0]))))
+				}
 				i := ip.NewIPv4FromString(string(unhx(a[0])))
 				if i == nil {
 					return "ok nil"
@@ -71,6 +74,9 @@ func init() {
 			}},
 			{Name: "c20.v6.print", Impl: func(a []string) string { return okStr(c20v6(a).String()) }},
 			{Name: "c20.v6.parse", Impl: func(a []string) string {
+				if c13Used(a) {
+					scribble(ip.NewIPv6FromString(string(unhx(a[0]))))
+				}
 				i := ip.NewIPv6FromString(string(unhx(a[0])))
 				if i == nil {
 					return "ok nil"
@@ -107,6 +113,11 @@ func init() {
 				return okStr(ip.NewTCPPortRange(uint16(n[0]), uint16(n[1])).String())
 			}},
 			{Name: "c20.port.parse", Impl: func(a []string) string {
+				if c13Used(a) {
+					if r0, err := ip.NewTCPPortRangeFromString(string(unhx(a[0]))); err == nil {
+						scribble(r0)
+					}
+				}
 				r, err := ip.NewTCPPortRangeFromString(string(unhx(a[0])))
 				if err != nil {
 					return "err"
